@@ -91,4 +91,56 @@ def integerValueToInt (s : Str) : Option Int :=
       | some v => some v
       | none => matchHex s
 
+/-! ## The DSP0004 grammar (ANNEX A "integerValue"), stated independently of the recognisers
+
+    binaryValue  = [ "+" / "-" ] 1*binaryDigit ( "b" / "B" )
+    octalValue   = [ "+" / "-" ] "0" 1*octalDigit
+    decimalValue = [ "+" / "-" ] ( positiveDecimalDigit *decimalDigit / "0" )
+    hexValue     = [ "+" / "-" ] ( "0x" / "0X" ) 1*hexDigit
+-/
+namespace Dsp0004
+
+inductive Sign where
+  | none | plus | minus
+  deriving DecidableEq, Repr
+
+def Sign.chars : Sign → Str
+  | .none => []
+  | .plus => ['+']
+  | .minus => ['-']
+
+def Sign.apply : Sign → Nat → Int
+  | .minus, n => -(n : Int)
+  | _, n => (n : Int)
+
+/-- octalDigit = "0".."7" -/
+def isOctDigit (c : Char) : Bool := 48 ≤ c.toNat && c.toNat ≤ 55
+
+/-- positional value of a digit string, most significant digit first -/
+def posValue (base : Nat) : Str → Nat
+  | [] => 0
+  | c :: r => digitVal c * base ^ r.length + posValue base r
+
+/-- `IsIntegerValue s v`: the string `s` derives from `integerValue` and denotes `v` -/
+inductive IsIntegerValue : Str → Int → Prop
+  | binary (sg : Sign) (ds : Str) (b : Char) :
+      ds ≠ [] → (∀ c ∈ ds, isBin c = true) → (b = 'b' ∨ b = 'B') →
+      IsIntegerValue (sg.chars ++ (ds ++ [b])) (sg.apply (posValue 2 ds))
+  | octal (sg : Sign) (ds : Str) :
+      ds ≠ [] → (∀ c ∈ ds, isOctDigit c = true) →
+      IsIntegerValue (sg.chars ++ '0' :: ds) (sg.apply (posValue 8 ds))
+  | decimalZero (sg : Sign) : IsIntegerValue (sg.chars ++ ['0']) 0
+  | decimal (sg : Sign) (d : Char) (ds : Str) :
+      isPos d = true → (∀ c ∈ ds, isDec c = true) →
+      IsIntegerValue (sg.chars ++ d :: ds) (sg.apply (posValue 10 (d :: ds)))
+  | hex (sg : Sign) (x : Char) (ds : Str) :
+      (x = 'x' ∨ x = 'X') → ds ≠ [] → (∀ c ∈ ds, isHex c = true) →
+      IsIntegerValue (sg.chars ++ '0' :: x :: ds) (sg.apply (posValue 16 ds))
+
+/-- the input class of known finding C20-KF1: an octal literal with a digit 0 after the leading 0 -/
+def OctalWithZeroDigit (s : Str) : Prop :=
+  ∃ (sg : Sign) (ds : Str), s = sg.chars ++ '0' :: ds ∧ ds ≠ [] ∧ (∀ c ∈ ds, isOctDigit c = true) ∧ '0' ∈ ds
+
+end Dsp0004
+
 end Pywbem.Model.IntLit
